@@ -322,7 +322,7 @@ func (e *agentEngine) Setup(r *Run) {
 		id[11] = byte(1 << uint(i%8)) // neighbours differ in a single bit
 		e.ids = append(e.ids, id)
 	}
-	e.errs = []error{errors.New("custom-0"), errors.New("custom-1"), errors.New("custom-2")}
+	e.errs = []error{errors.New("custom-0"), errors.New("custom-1"), errors.New("custom-2"), nil} // nil must be passed through unchanged too
 	e.model = aInit()
 
 	var setup *verifrt.Task
